@@ -417,6 +417,9 @@ class VM:
             return
         if self.depth >= env.limit:
             raise RErr('limit:calls')
+        if self.top_calls >= env.limit:
+            # the cumulative count of the top level is already at the limit: every body inherits at least that much
+            raise RErr('limit:calls')
         if env.n_calls >= env.limit:
             raise Unspec('cumulative call budget accounting')
 
